@@ -99,7 +99,7 @@ func ruleSetupFamily(c *Ctx, rule string, fns []*ssa.Function, v4 map[*ssa.Funct
 		}
 		sites := map[ssa.Instruction]*res{}
 		labelSite := map[string]ssa.Instruction{}
-		labelRoot := map[string]ssa.Instruction{}
+		labelRoot := map[string][]ssa.Instruction{} // the parse and the calls (of inlined helpers) leading to it
 		ex.Hooks.Label = func(st *State, in ssa.Instruction) string {
 			if call, ok := in.(*ssa.Call); ok {
 				if f := call.Call.StaticCallee(); f != nil {
@@ -108,11 +108,11 @@ func ruleSetupFamily(c *Ctx, rule string, fns []*ssa.Function, v4 map[*ssa.Funct
 						labelSite[l] = in
 						// where this parse happens in terms of the function being explored
 						// (the call that leads into the helper, when the parse is in one)
-						if len(st.frames) > 0 {
-							labelRoot[l] = st.frames[0].call
-						} else {
-							labelRoot[l] = in
+						chain := []ssa.Instruction{in}
+						for _, fr := range st.frames {
+							chain = append(chain, fr.call)
 						}
+						labelRoot[l] = chain
 						if sites[in] == nil {
 							sites[in] = &res{}
 						}
@@ -206,8 +206,10 @@ func ruleSetupFamily(c *Ctx, rule string, fns []*ssa.Function, v4 map[*ssa.Funct
 			for l := range st.seen {
 				if strings.HasPrefix(l, "parse:") {
 					// only drop parses made inside this loop
-					if in := labelRoot[l]; in != nil && in.Parent() == header.Parent() && InfoOf(header.Parent()).LoopOf[header.Index][in.Block().Index] {
-						delete(st.seen, l)
+					for _, in := range labelRoot[l] {
+						if in.Parent() == header.Parent() && InfoOf(header.Parent()).LoopOf[header.Index][in.Block().Index] {
+							delete(st.seen, l)
+						}
 					}
 				}
 			}
